@@ -180,6 +180,81 @@ let run_c09 toks =
         | _ -> None) ops in
     l1 :: l2 :: qs
 
+let eight = S (S (S (S (S (S (S (S O)))))))
+let disk_candidates bytes ft qs =
+  match qs with
+  | [] -> (0, [])
+  | q0 :: _ ->
+    let tbl = read_tbl16 bytes ft.ft_chunk_lookup_offset ft.ft_chunk_lookup_num in
+    let k = truncate_hash (keyed ft.ft_key q0) in
+    let cands = List.filter (fun (k', _) -> k' = k) tbl in
+    let answers = List.filter_map (fun (_, (ci, off)) ->
+        match dedup_direct bytes ft qs ci off with
+        | Found (Some a) -> Some (dump_seg_res (Some a))
+        | _ -> None) cands in
+    (List.length cands, List.sort_uniq compare answers)
+
+let run_c05 toks =
+  let ops = split_ops toks in
+  let m = build_mem ops in
+  let bytes = serialize_from m in
+  match load_footer bytes with
+  | None -> ["MODEL-CANNOT-LOAD-OWN-SHARD"]
+  | Some ft ->
+    let keyed_shard = List.fold_left (fun acc op -> match op with
+        | ["key"; k] ->
+          let kb = export_keyed m.ms_files m.ms_cass (bytes_of_hex k) (n_of_int 1000) (n_of_int 4600) true true true in
+          (match load_footer kb with Some kft -> Some (kb, kft) | None -> failwith "keyed shard does not load")
+        | _ -> acc) None ops in
+    let nq = ref 0 in
+    List.concat (List.filter_map (fun op -> match op with
+        | ["qd"; l] ->
+          let qs = if l = "-" then [] else List.map bytes_of_hex (String.split_on_char ',' l) in
+          let l1 = Printf.sprintf "qd%d mem %s" !nq (dump_seg_res (mem_dedup_query m qs)) in
+          let (k, ans) = disk_candidates bytes ft qs in
+          let l2 = Printf.sprintf "qd%d disk cands=%d {%s}" !nq k (String.concat "|" ans) in
+          let l3 = (match keyed_shard with
+              | None -> []
+              | Some (kb, kft) -> let (k, ans) = disk_candidates kb kft qs in [Printf.sprintf "qd%d keyed cands=%d {%s}" !nq k (String.concat "|" ans)]) in
+          incr nq; Some (l1 :: l2 :: l3)
+        | _ -> None) ops)
+
+let split_ab ops =
+  let rec go a b second = function
+    | [] -> (List.rev a, List.rev b)
+    | ["=="] :: r -> go a b true r
+    | op :: r -> if second then go a (op :: b) true r else go (op :: a) b false r in
+  go [] [] false ops
+
+let describe_model_bytes bytes =
+  match load_footer bytes with
+  | None -> "MODEL-CANNOT-LOAD-OWN-SHARD"
+  | Some ft -> describe_bytes bytes ft
+
+let run_c10 toks =
+  let ops = split_ops toks in
+  let (oa, ob) = split_ab ops in
+  let a = build_mem oa and b = build_mem ob in
+  let u = disk_union a.ms_files b.ms_files a.ms_cass b.ms_cass in
+  let d = disk_difference a.ms_files b.ms_files a.ms_cass b.ms_cass in
+  let mu = mem_union size_per_occurrence a b in
+  let md = mem_difference size_per_occurrence a b in
+  [ "disk-union " ^ describe_model_bytes u;
+    "disk-diff " ^ describe_model_bytes d;
+    Printf.sprintf "mem-union %s acct=%s" (describe_model_bytes (serialize_from mu)) (dec_n (shard_file_size mu));
+    Printf.sprintf "mem-diff %s acct=%s" (describe_model_bytes (serialize_from md)) (dec_n (shard_file_size md)) ]
+
+let run_c18 toks =
+  let ops = split_ops toks in
+  let m = build_mem ops in
+  let ne = ref 0 in
+  List.filter_map (fun op -> match op with
+      | ["exp"; k; fl; _] ->
+        let fl = int_of_string fl in
+        let kb = export_keyed m.ms_files m.ms_cass (bytes_of_hex k) N0 N0 (fl land 1 <> 0) (fl land 2 <> 0) (fl land 4 <> 0) in
+        let r = Printf.sprintf "exp%d %s" !ne (describe_model_bytes kb) in incr ne; Some r
+      | _ -> None) ops
+
 let run_c04 toks =
   match toks with
   | target :: rest ->
@@ -209,6 +284,9 @@ let () =
              | "c04" -> [run_c04 toks]
              | "c06" -> [run_c06 toks]
              | "c09" -> run_c09 toks
+             | "c05" -> run_c05 toks
+             | "c10" -> run_c10 toks
+             | "c18" -> run_c18 toks
              | _ -> failwith "unknown stream")
              with Stack_overflow -> ["MODEL-EXCEPTION stack-overflow"] | e -> ["MODEL-EXCEPTION " ^ Printexc.to_string e] in
            List.iter (fun o -> Printf.printf "obs %s %s\n" id o) obs
